@@ -5,12 +5,17 @@ import (
 	"errors";
 	"io";
 	"context";
+	"time";
 
 	pb "github.com/marekgalovic/anndb/protobuf";
 	"github.com/marekgalovic/anndb/cluster";
 
 	log "github.com/sirupsen/logrus";
 )
+
+const joinAppliedTimeout time.Duration = 10 * time.Second
+
+var JoinNotAppliedErr error = errors.New("Join was proposed but not applied in time")
 
 type NodesManager struct {
 	clusterConn *cluster.Conn
@@ -47,6 +52,22 @@ func (this *NodesManager) ListNodes() map[uint64]string {
 func (this *NodesManager) AddNode(id uint64, address string) (map[uint64]string, error) {
 	if err := this.zeroGroup.ProposeJoin(id, address); err != nil {
 		return nil, err
+	}
+
+	// A proposal that was handed to raft can still be lost (a follower forwards
+	// it to the leader in a single message, a leader can be deposed before it
+	// commits): the join is acknowledged only once the change was applied here.
+	deadline := time.NewTimer(joinAppliedTimeout)
+	defer deadline.Stop()
+	for {
+		if appliedAddress, exists := this.clusterConn.Nodes()[id]; exists && appliedAddress == address {
+			break
+		}
+		select {
+		case <-deadline.C:
+			return nil, JoinNotAppliedErr
+		case <-time.After(50 * time.Millisecond):
+		}
 	}
 
 	nodes := this.clusterConn.Nodes()
